@@ -117,7 +117,8 @@ def configs(thorough, seed):
         i += 1
         h = hists[(i + seed) % len(hists)] if not thorough else None
         for hist in ([h] if h else hists[::2]):
-            k = dict(factor_update_steps=F, inv_update_steps=F,
+            k = dict(factor_update_steps=F,
+                     inv_update_steps=(F, 3, 1)[i % 3],
                      damping=0.1, factor_decay=dec, kl_clip=1e-3, lr=0.1,
                      accumulation_steps=acc, update_factors_in_hook=hook)
             if fdt:
